@@ -28,7 +28,25 @@ Symbols == DOMAIN CodeTab
 AnyC      == [t |-> "any"]
 StarC      == [t |-> "star"]
 Chr(c)    == [t |-> "chr", c |-> c]
-SetOf(neg, mem, rng) == [t |-> "set", neg |-> neg, mem |-> mem, rng |-> rng]
+SetOf(neg, mem, rng, cls) == [t |-> "set", neg |-> neg, mem |-> mem, rng |-> rng, cls |-> cls]
+
+(***************************************************************************)
+(* Character classes (XBD 9.3.5): "[:alpha:]" etc. are single SYMBOLS of    *)
+(* the pattern alphabet (the driver writes the text).  Inside a bracket     *)
+(* expression such a symbol is a class (ASCII, as in the C locale); outside *)
+(* it is the bracket expression made of its own characters.                 *)
+(***************************************************************************)
+ClassSyms == {"[:alpha:]", "[:digit:]", "[:space:]", "[:punct:]", "[:upper:]", "[:lower:]", "[:alnum:]"}
+ClassChars(k) == CASE k = "[:alpha:]" -> {":", "a", "l", "p", "h"} [] k = "[:digit:]" -> {":", "d", "i", "g", "t"}
+                   [] k = "[:space:]" -> {":", "s", "p", "a", "c", "e"} [] k = "[:punct:]" -> {":", "p", "u", "n", "c", "t"}
+                   [] k = "[:upper:]" -> {":", "u", "p", "e", "r"} [] k = "[:lower:]" -> {":", "l", "o", "w", "e", "r"}
+                   [] OTHER -> {":", "a", "l", "n", "u", "m"}
+InClass(k, c) == LET n == Code(c)
+                     up == n >= 65 /\ n <= 90   lo == n >= 97 /\ n <= 122   dg == n >= 48 /\ n <= 57 IN
+                 CASE k = "[:alpha:]" -> up \/ lo [] k = "[:digit:]" -> dg [] k = "[:alnum:]" -> up \/ lo \/ dg
+                   [] k = "[:upper:]" -> up [] k = "[:lower:]" -> lo
+                   [] k = "[:space:]" -> n \in {9, 10, 11, 12, 13, 32}
+                   [] OTHER -> (n >= 33 /\ n <= 47) \/ (n >= 58 /\ n <= 64) \/ (n >= 91 /\ n <= 96) \/ (n >= 123 /\ n <= 126)
 
 (* status lattice: ok < either, mal < unspec; either \/ mal = mal *)
 JoinSt(a, b) ==
@@ -47,13 +65,17 @@ JoinSt(a, b) ==
 (* "[." "[=" "[:" inside a bracket expression are outside the modelled      *)
 (* fragment (status unspec).                                                *)
 (***************************************************************************)
-RECURSIVE BrScan(_, _, _, _, _, _)
-BrScan(p, j, first, mem, rng, st) ==
+RECURSIVE BrScan(_, _, _, _, _, _, _)
+BrScan(p, j, first, mem, rng, cls, st) ==
     IF j > Len(p) THEN [term |-> FALSE]
     ELSE LET c == p[j] IN
-      IF c = "]" /\ ~first THEN [term |-> TRUE, end |-> j, mem |-> mem, rng |-> rng, st |-> st]
+      IF c = "]" /\ ~first THEN [term |-> TRUE, end |-> j, mem |-> mem, rng |-> rng, cls |-> cls, st |-> st]
       ELSE IF c = "[" /\ j < Len(p) /\ p[j + 1] \in {".", "=", ":"} THEN
-           BrScan(p, j + 1, FALSE, mem \cup {"["}, rng, "unspec")
+           BrScan(p, j + 1, FALSE, mem \cup {"["}, rng, cls, "unspec")
+      ELSE IF c \in ClassSyms THEN       \* a class; as the end point of a range it is outside the modelled fragment
+           BrScan(p, j + 1, FALSE, mem, rng, cls \cup {c},
+                  IF j + 2 <= Len(p) /\ p[j + 1] = "-" /\ p[j + 2] # "]" THEN "unspec" ELSE st)
+      ELSE IF c = "\\" /\ j < Len(p) /\ p[j + 1] \in ClassSyms THEN BrScan(p, j + 2, FALSE, mem, rng, cls, "unspec")
       ELSE IF c = "\\" /\ j = Len(p) THEN [term |-> FALSE]
       ELSE LET lo == IF c = "\\" THEN p[j + 1] ELSE c
                n  == IF c = "\\" THEN j + 2 ELSE j + 1      \* index after lo
@@ -62,11 +84,11 @@ BrScan(p, j, first, mem, rng, st) ==
                    IF p[n + 1] = "\\" /\ n + 1 = Len(p) THEN [term |-> FALSE]
                    ELSE LET hi == IF p[n + 1] = "\\" THEN p[n + 2] ELSE p[n + 1]
                             m  == IF p[n + 1] = "\\" THEN n + 3 ELSE n + 2
-                        IN IF p[n + 1] = "[" /\ m <= Len(p) /\ p[m] \in {".", "=", ":"}
-                           THEN BrScan(p, m, FALSE, mem, rng, "unspec")
-                           ELSE BrScan(p, m, FALSE, mem, rng \cup {<<Code(lo), Code(hi)>>},
+                        IN IF (p[n + 1] = "[" /\ m <= Len(p) /\ p[m] \in {".", "=", ":"}) \/ hi \in ClassSyms
+                           THEN BrScan(p, m, FALSE, mem, rng, cls, "unspec")
+                           ELSE BrScan(p, m, FALSE, mem, rng \cup {<<Code(lo), Code(hi)>>}, cls,
                                        IF Code(lo) > Code(hi) THEN JoinSt(st, "mal") ELSE st)
-              ELSE BrScan(p, n, FALSE, mem \cup {lo}, rng, st)
+              ELSE BrScan(p, n, FALSE, mem \cup {lo}, rng, cls, st)
 
 (***************************************************************************)
 (* Parse(p) = [st, items].  An unterminated "[" and a trailing backslash    *)
@@ -80,13 +102,15 @@ ParseFrom(p, i) ==
          IN CASE c = "?" -> PCons("ok", AnyC, ParseFrom(p, i + 1))
               [] c = "*" -> PCons("ok", StarC, ParseFrom(p, i + 1))
               [] c = "\\" -> IF i = Len(p) THEN [st |-> "either", items |-> <<Chr("\\")>>]
+                             ELSE IF p[i + 1] \in ClassSyms THEN PCons("unspec", Chr("["), ParseFrom(p, i + 2))
                              ELSE PCons("ok", Chr(p[i + 1]), ParseFrom(p, i + 2))
+              [] c \in ClassSyms -> PCons("ok", SetOf(FALSE, ClassChars(c), {}, {}), ParseFrom(p, i + 1))    \* outside a bracket: its own characters
               [] c = "[" ->
                    LET neg == i < Len(p) /\ p[i + 1] \in {"!", "^"}
                        j0  == IF neg THEN i + 2 ELSE i + 1
-                       b   == BrScan(p, j0, TRUE, {}, {}, "ok")
+                       b   == BrScan(p, j0, TRUE, {}, {}, {}, "ok")
                    IN IF b.term
-                      THEN PCons(b.st, SetOf(neg, b.mem, b.rng), ParseFrom(p, b.end + 1))
+                      THEN PCons(b.st, SetOf(neg, b.mem, b.rng, b.cls), ParseFrom(p, b.end + 1))
                       ELSE PCons("either", Chr("["), ParseFrom(p, i + 1))
               [] OTHER -> PCons("ok", Chr(c), ParseFrom(p, i + 1))
 
@@ -96,7 +120,7 @@ Parse(p) == ParseFrom(p, 1)
 (* Matching: the items match the WHOLE subject.                             *)
 (***************************************************************************)
 InSet(it, c) ==
-    LET hit == c \in it.mem \/ \E r \in it.rng : r[1] <= Code(c) /\ Code(c) <= r[2]
+    LET hit == c \in it.mem \/ (\E r \in it.rng : r[1] <= Code(c) /\ Code(c) <= r[2]) \/ (\E k \in it.cls : InClass(k, c))
     IN  IF it.neg THEN ~hit ELSE hit
 
 One(it, c) == CASE it.t = "any" -> TRUE
